@@ -64,6 +64,7 @@ Contradictions(o) ==
        g == Pos(c, 2, 50, 32) IN
    {<<"app-mismatch",   Mut(c, a, "app", 7)>>,
     <<"app-missing",    Mut(c, d, "app", 0)>>,
+    <<"app-missing-loom2", Mut(c, g, "app", 0)>>,
     <<"app-negative",   Mut(Mut(c, b, "app", -2), a, "app", -2)>>,
     <<"rank-mismatch",  Mut(Mut(cr, a, "rank", 3), a, "nranks", 4)>>,
     <<"nranks-mismatch", Mut(Mut(cr, a, "rank", 1), a, "nranks", 5)>>,
@@ -101,7 +102,7 @@ MixedOrders == IF WithOrders THEN Perms(5)
 Init == /\ S = <<>>
         /\ \/ \E a \in AppChoices, r \in RankChoices : tag = <<"seed", a, r>>
            \/ tag = <<"seed-contradictions">>
-           \/ (~Tiny /\ tag = <<"seed-mixed">>)
+           \/ tag = <<"seed-mixed">>
 Next == \/ /\ tag[1] = "seed"
            /\ \E d1 \in CpuDist(1), d2 \in CpuDist(2), rev \in BOOLEAN, o \in Orders :
                  S' = Build(tag[2], tag[3], d1, d2, rev, o)
